@@ -700,7 +700,9 @@ impl Inner {
             }
         };
 
-        if stream.is_pending_open {
+        // A pushed stream waiting for a concurrency slot has already been
+        // announced by PUSH_PROMISE, so only a client's pending stream is idle.
+        if stream.is_pending_open && !self.counts.peer().is_server() {
             proto_err!(conn: "recv_reset: received frame on idle stream {:?}", id);
             return Err(Error::library_go_away(Reason::PROTOCOL_ERROR));
         }
@@ -737,7 +739,9 @@ impl Inner {
             // The remote may send window updates for streams that the local now
             // considers closed. It's ok...
             if let Some(mut stream) = self.store.find_mut(&id) {
-                if stream.is_pending_open {
+                // A pushed stream waiting for a concurrency slot has already been
+                // announced by PUSH_PROMISE, so only a client's pending stream is idle.
+                if stream.is_pending_open && !self.counts.peer().is_server() {
                     proto_err!(conn: "recv_window_update: received frame on idle stream {:?}", id);
                     return Err(Error::library_go_away(Reason::PROTOCOL_ERROR));
                 }
